@@ -45,6 +45,19 @@ def gen_inputs(ctx):
     for m, p in pairs:
         out.append(("Seed", {"m": T(m), "p": T(p)},
                     ("seed", m.isascii(), p.isascii(), R.nfkd(m) != m, R.nfkd(p) != p, p == "", len(R.utf8(m)) > 128)))
+    # code points a string helper might pick as an in-band separator or sentinel (non-characters, controls, separators,
+    # private use, the last code point) INSIDE the mnemonic, inside the passphrase and in both: text is text
+    Ms = "legal winner thank year wave sausage worth useful legal winner thank yellow"
+    for cp in (0x0, 0x1, 0x1c, 0x1e, 0x1f, 0x7f, 0x85, 0xad, 0x200b, 0x2028, 0x2029, 0xe000, 0xf8ff, 0xfdd0, 0xfeff, 0xfffc,
+               0xfffd, 0xfffe, 0xffff, 0x1fffe, 0x10ffff, 0x7c, 0x3a):
+        c = chr(cp)
+        cases = [(Ms[:30] + c + Ms[30:], "TREZOR"), (Ms, "TRE" + c + "ZOR"), (Ms + c, c + "pw"), (c + Ms[:12] + c + Ms[12:], "p" + c)]
+        if q:
+            cases = [cases[0], cases[cp % 3 + 1]]
+        for m_, p_ in cases:
+            out.append(("Seed", {"m": T(m_), "p": T(p_)}, ("seed-separator-like-code-point", cp, c in m_, c in p_)))
+        out.append(("Construct", {"route": "mnemonic", "m": T(Ms[:30] + c + Ms[30:]), "p": T("pw"), "net": "main"},
+                    ("mnemonic-separator-like-code-point", cp)))
     # valid BIP39 sentences that HAPPEN to be valid seed phrases of a neighbouring scheme as well (Electrum: the first hex
     # digits of HMAC-SHA512("Seed version", phrase) are 01 / 100 / 101): still plain BIP39 here.  Searched (1 in 256 / 4096).
     try:
